@@ -16,8 +16,11 @@ WINDOWS = ["RecoveryUnchecked", "VolatileStore", "StaleFeedback", "MultiLease", 
 # windows the masked runs do not step into. "StaleFeedback" is no longer one of them: store.go was
 # repaired (a recovered mark only replaces the store entry of the same operation) and the model
 # follows; the as-was behaviour is the deviation switch "StaleFeedbackOverwrite" of AspenKV.tla.
-MASKED = [w for w in WINDOWS if w != "StaleFeedback"]
+# "RecoveryUnchecked" left them too: recovery.go was repaired (mark loaded once, peers in turn, only
+# superseding operations applied); as-was = deviation "RecoveryUncheckedApply".
+MASKED = [w for w in WINDOWS if w not in ("StaleFeedback", "RecoveryUnchecked")]
 ASWAS_STALEFB = ["StaleFeedbackOverwrite"]
+ASWAS_RECOVERY = ["RecoveryUncheckedApply"]
 
 C06_KINDS = {"engine", "value", "order", "regress", "diverged"}
 C13_KINDS = {"notify-raw", "notify-p", "notify-f", "txlh", "incomplete", "dup", "stale", "unstored", "missed",
@@ -79,7 +82,10 @@ def design_runs(tier, want):
         runs.append(("v_stalehit", dict(nodes=[1, 2], keys=["k1"], maxver=2, maxnet=2, faults=0, restarts=0, extra_inv="NoStaleHit"), "probe:NoStaleHit"))
         runs.append(("w_stalefb_aswas", dict(nodes=[1, 2], keys=["k1"], maxver=2, maxnet=2, faults=0, restarts=0, deviations=ASWAS_STALEFB), "StaleFeedback"))
         runs.append(("w_multilease", dict(nodes=[1, 2], keys=["k1"], maxver=2, maxnet=1, faults=0, restarts=0, masked=un(["MultiLease"])), "MultiLease"))
-        runs.append(("w_recovery", dict(nodes=[1, 2, 3], keys=["k1"], maxver=2, maxnet=1, faults=0, restarts=1, masked=un(["RecoveryUnchecked"])), "RecoveryUnchecked"))
+        # repaired recovery, 3 nodes, restarts free (the masked runs above have MaxRestarts 1 as well):
+        # must hold; as-was deviation with the same environment: must still violate
+        runs.append(("m3n1k2v_rec", dict(nodes=[1, 2, 3], keys=["k1"], maxver=2, maxnet=1, faults=0, restarts=1), None))
+        runs.append(("w_recovery_aswas", dict(nodes=[1, 2, 3], keys=["k1"], maxver=2, maxnet=1, faults=0, restarts=1, deviations=ASWAS_RECOVERY), "RecoveryUnchecked"))
         runs.append(("w_premature", dict(nodes=[1, 2, 3], keys=["k1"], maxver=1, maxnet=2, faults=0, restarts=0, masked=un(["PrematureRemoval"])), "PrematureRemoval"))
     else:
         runs.append(("s2n1k", dict(nodes=[1, 2], keys=["k1"], maxver=2, maxnet=1, faults=1, restarts=1, subs=True, lag=True), None))
@@ -342,10 +348,6 @@ WINDOW_SCRIPTS = [
      {"nodes": 2, "keys": ["k1"], "steps": [
          {"a": "write", "n": 2, "k": "k1", "var": "set"}, {"a": "crash", "n": 2}, {"a": "restart", "n": 2},
          {"a": "quiesce"}]}),
-    ("w-recovery-tie", "RecoveryUnchecked", "regress",
-     {"nodes": 2, "keys": ["k1"], "steps": [
-         {"a": "write", "n": 1, "k": "k1", "var": "set"}, {"a": "write", "n": 2, "k": "k1", "var": "set"},
-         {"a": "crash", "n": 2}, {"a": "restart", "n": 2}]}),
     ("w-local-race", "MultiLease", "regress",
      {"nodes": 2, "keys": ["k1"], "steps": [
          {"a": "write", "n": 1, "k": "k1", "var": "set"}, {"a": "write", "n": 1, "k": "k1", "var": "set"},
@@ -367,6 +369,18 @@ SIR_12 = [ex(1, 2), ex(1, 2), dfb(2, 1), ex(1, 2), dfb(2, 1), ex(1, 2), dfb(2, 1
 
 # directed, deterministic scenarios that must hold (no window): mutation-sensitive regressions
 HOLD_SCRIPTS = [
+    # formerly the RecoveryUnchecked window scripts (recovery.go repaired since). tie: both nodes wrote
+    # k1 at version 1 before any gossip; node 2 restarts and its peer streams (v1, lh1), which does not
+    # supersede (v1, lh2): node 2 must keep its operation. order: the two peers of node 3 hold v2 and v1;
+    # whatever order they are recovered in, node 3 must end with v2. On an unrepaired tree a regress at
+    # the "recovered" step is reported under WINDOW_SIG["RecoveryUnchecked"].
+    ("d-recovery-tie", {"nodes": 2, "keys": ["k1"], "steps": [
+        {"a": "write", "n": 1, "k": "k1", "var": "set"}, {"a": "write", "n": 2, "k": "k1", "var": "set"},
+        {"a": "crash", "n": 2}, {"a": "restart", "n": 2}]}),
+    ("d-recovery-order", {"nodes": 3, "keys": ["k1", "k2"], "steps": [
+        {"a": "crash", "n": 3}, {"a": "write", "n": 1, "k": "k1", "var": "set"}, ex(1, 2),
+        {"a": "write", "n": 1, "k": "k1", "var": "del"}, {"a": "write", "n": 2, "k": "k2", "var": "set"},
+        {"a": "restart", "n": 3}, {"a": "quiesce"}]}),
     # formerly the StaleFeedback window script (store.go repaired since): the third feedback for
     # version 1 reaches the threshold after version 2 was written; the mark must NOT un-infect
     # version 2 and the cluster must quiesce converged. On an unrepaired tree it quiesces diverged
@@ -545,7 +559,10 @@ def judge_cluster(ctx, want, scen, windows=False):
         v = vs[0]
         sig = "%s cluster %s at %s" % (want, v["kind"], v["ev"])
         taints = (v.get("taint") or "").split(",")
-        if want == "C06" and v["kind"] == "diverged" and ("stalefb:" + v.get("key", "")) in taints:
+        if want == "C06" and v["kind"] == "regress" and v["ev"] == "recovered":
+            # start-up recovery replaced a stored operation by an older one: the as-was recovery.go
+            sig = WINDOW_SIG["RecoveryUnchecked"]
+        elif want == "C06" and v["kind"] == "diverged" and ("stalefb:" + v.get("key", "")) in taints:
             # a recovered mark for an old version reached the threshold over the key's newer operation
             # earlier in this scenario, and the cluster then quiesced diverged: the as-was store.go
             sig = WINDOW_SIG["StaleFeedback"]
@@ -632,6 +649,15 @@ def run_cluster_layer(ctx, want):
             elif prop == want:
                 ctx.report("%s cluster trace violates %s" % (want, inv),
                            "scenario %s: the behaviour of the real nodes, matched step by step by AspenKVTrace, violates %s at event %s" % (s["id"], inv, tv.get("offset")),
+                           {"layer": "cluster", "scenario": s["id"], "seed": s.get("seed"), "trace": s["trace"][: (tv.get("offset") or 0) + 1]})
+        elif not direct and (tv.get("event") or {}).get("ev") == "recovered" and \
+                (lambda t2: t2["ok"] or t2["violated"])(validate_traces(ctx, [s], "aswasrec_%s" % s["id"].replace("-", "_"), deviations=ASWAS_RECOVERY)):
+            # the digests after kv.Open are not what recovering the peers in turn with the supersedes rule
+            # gives, but what the as-was recovery (unordered, unchecked) gives
+            if want == "C06":
+                ctx.report(WINDOW_SIG["RecoveryUnchecked"] + " (digests after Open only explained by the as-was model)",
+                           "scenario %s: start-up recovery of node %s left digests that the repaired recovery cannot produce" % (
+                               s["id"], (tv.get("event") or {}).get("n")),
                            {"layer": "cluster", "scenario": s["id"], "seed": s.get("seed"), "trace": s["trace"][: (tv.get("offset") or 0) + 1]})
         elif not direct and "stalefb" in (s.get("taints") or []) and \
                 (lambda t2: t2["ok"] or t2["violated"])(validate_traces(ctx, [s], "aswas_%s" % s["id"].replace("-", "_"), deviations=ASWAS_STALEFB)):
